@@ -3,7 +3,8 @@
 Enumerated: contents {empty, 1 byte, 10 compressible bytes, 64 incompressible bytes, 200 KiB compressible, 200 KiB
 incompressible, 300 KiB half/half (beyond the 128 KiB sampling window of the AUTO heuristic)} all in one container, stored
 {loose then pack_all_loose(m0) for m0 in NO/YES/KEEP/AUTO/True/False; directly to a pack plain; directly compressed; directly with
-compressed and plain objects interleaved in the same packs},
+compressed and plain objects interleaved in the same packs; imported from another container with compress=True / False and a tiny
+memory budget},
 followed by *every* chain of repack(m) of length 3 over {KEEP, YES, NO, AUTO} (64 chains; all shorter chains are their
 prefixes), for zlib levels {1, 9} (quick) / 1..9 (thorough) and a small / the default pack_size_target.
 Oracle after every step: every object reads back unchanged (single, bulk, chunked); flag rule - YES: all stored
@@ -26,7 +27,7 @@ LEVEL = 'model_checking'
 
 MODES = ('KEEP', 'YES', 'NO', 'AUTO')
 STORES = ['loose-NO', 'loose-YES', 'loose-KEEP', 'loose-AUTO', 'loose-True', 'loose-False', 'direct-plain', 'direct-compressed',
-          'direct-mixed']
+          'direct-mixed', 'import-YES', 'import-NO']
 
 
 def contents():
@@ -105,6 +106,19 @@ def _case(arg):
             c.pack_all_loose(compress={'True': True, 'False': False}.get(m0) if m0 in ('True', 'False') else CompressMode[m0])
             c.clean_storage()
             first_mode = m0
+        elif store.startswith('import-'):
+            # objects arrive through import_objects(compress=...) from another container, with a memory budget of 70 bytes: the small
+            # objects go through the in-memory cache (flushed in the middle and at the end), the large ones are streamed
+            comp = store == 'import-YES'
+            src = Container(os.path.join(d, 'src'))
+            src.init_container(compression_algorithm=f'zlib+{level}')
+            try:
+                keys = [src.add_object(x) for x in items]
+                src.pack_all_loose(compress=CompressMode.AUTO)
+                c.import_objects(keys, src, compress=comp, target_memory_bytes=70)
+            finally:
+                src.close()
+            first_mode = 'YES' if comp else 'NO'
         elif store == 'direct-mixed':
             # compressed and plain objects interleaved in the same pack files (what KEEP must preserve object by object)
             ka = c.add_objects_to_pack(items[0::2], compress=True)
@@ -146,7 +160,7 @@ def run(tier, report):
     cases = [(s, lv, tg, ch) for s in STORES for lv in levels for tg in targets for ch in chains]
     if q:
         # quick: all 64 chains for three representative stores, chains of length 2 (16) for the others
-        keep = {'loose-NO', 'direct-compressed', 'loose-AUTO', 'direct-mixed'}
+        keep = {'loose-NO', 'direct-compressed', 'loose-AUTO', 'direct-mixed', 'import-YES'}
         cases = [cse for cse in cases if cse[0] in keep or cse[3][2] == 'KEEP']
         cases = [(s, lv, tg, ch if s in keep else ch[:2]) for s, lv, tg, ch in cases]
     res = pmap(_case, cases, progress='C10' if len(cases) > 300 else None)
